@@ -12,6 +12,7 @@ package ion
 
 import (
 	"bufio"
+	"bytes"
 	"io"
 )
 
@@ -315,6 +316,40 @@ func vcModelReadFull(r io.Reader, buf []byte) (int, error) {
 	return avail, s.end
 }
 
+// Ghost model of a bytes.Buffer that starts out empty (the zero value) and is only written
+// by one io.CopyN: its contents.
+type vcBuffer struct {
+	data []byte
+}
+
+func vcBufferOf(b *bytes.Buffer) *vcBuffer       { return nil }
+func vcBufferOfWriter(w io.Writer) *vcBuffer     { return nil }
+func vcModelBufferBytes(b *bytes.Buffer) []byte { return vcBufferOf(b).data }
+
+// io.CopyN(dst, src, n) with src a *bufio.Reader and dst an empty *bytes.Buffer: copies
+// min(n, available) bytes; short of n it reports the error the source ends with (io.EOF
+// for a clean end).
+func vcModelCopyN(dst io.Writer, src io.Reader, n int64) (int64, error) {
+	s := vcStreamOfReader(src)
+	bf := vcBufferOfWriter(dst)
+	if s.end == nil {
+		panic("a stream always ends with a non-nil error")
+	}
+	if n <= 0 {
+		bf.data = nil
+		return 0, nil
+	}
+	avail := len(s.data) - s.cur
+	if int(n) <= avail {
+		bf.data = append([]byte(nil), s.data[s.cur:s.cur+int(n)]...)
+		s.cur += int(n)
+		return n, nil
+	}
+	bf.data = append([]byte(nil), s.data[s.cur:]...)
+	s.cur = len(s.data)
+	return int64(avail), s.end
+}
+
 // ---------------------------------------------------------------------------
 // Binary reader: representation invariant of the bitstream.
 
@@ -339,11 +374,56 @@ func bsNested(b *bitstream) bool {
 // bsPos: the cursor has not passed the end of the innermost container.
 func bsPos(b *bitstream) bool { return len(b.stack.arr) == 0 || b.pos <= bsTopEnd(b) }
 
-// bsInv: bsCore, and a current value lies inside the innermost container.
-func bsInv(b *bitstream) bool {
-	return bsCore(b) &&
-		(len(b.stack.arr) == 0 || b.state != bssOnValue || b.len <= bsTopEnd(b)-b.pos)
+// bsLocal: the quantifier-free part of the representation invariant of a bitstream: the
+// input is attached and well formed, the cursor has not passed the innermost end, the
+// current value lies inside the innermost container (at top level: inside the addressable
+// offsets; a version marker's three octets are read, never skipped over or stepped into,
+// and are not held to that bound), outside a value the value fields are clear, and the
+// field-id states occur only inside a struct.
+func bsLocal(b *bitstream) bool {
+	return bsStream(b) && b.state <= bssOnFieldID && bsPos(b) &&
+		(b.state != bssOnValue || (b.code == bitcodeBVM && len(b.stack.arr) == 0) || b.len <= bsRem(b)) &&
+		(b.state == bssOnValue || (!b.null && b.len == 0)) &&
+		((b.state != bssBeforeFieldID && b.state != bssOnFieldID) || bsInStruct(b))
 }
+
+// bsInStruct: the innermost container is a struct.
+func bsInStruct(b *bitstream) bool {
+	return len(b.stack.arr) > 0 && b.stack.arr[len(b.stack.arr)-1].code == bitcodeStruct
+}
+
+// bsInv: the representation invariant between calls: bsLocal, and container ends are
+// nested. Operations that do not touch the container stack preserve bsNested by their
+// frame (`modifies`) and state only bsLocal.
+func bsInv(b *bitstream) bool { return bsLocal(b) && bsNested(b) }
+
+// bsS is the ghost stream of b; bsAvail the bytes it still holds; bsByte the byte i
+// positions after the cursor.
+func bsS(b *bitstream) *vcStream     { return vcStreamOf(b.in) }
+func bsAvail(b *bitstream) int       { return len(vcStreamOf(b.in).data) - vcStreamOf(b.in).cur }
+func bsByte(b *bitstream, i int) byte { return vcStreamOf(b.in).data[vcStreamOf(b.in).cur+i] }
+func bsTop(b *bitstream) bool        { return len(b.stack.arr) == 0 }
+
+// bsRem: bytes left in the innermost container; at top level what an offset can still
+// address.
+func bsRem(b *bitstream) uint64 {
+	if len(b.stack.arr) == 0 {
+		return 0xFFFFFFFFFFFFFFFF - b.pos
+	}
+	return bsTopEnd(b) - b.pos
+}
+
+// bsAfter: the state a bitstream is in after a value: before the next field id inside a
+// struct, before the next value elsewhere.
+func bsAfter(b *bitstream) bss {
+	if len(b.stack.arr) > 0 && b.stack.arr[len(b.stack.arr)-1].code == bitcodeStruct {
+		return bssBeforeFieldID
+	}
+	return bssBeforeValue
+}
+
+// bsCleared: no current value.
+func bsCleared(b *bitstream) bool { return b.code == bitcodeNone && !b.null && b.len == 0 }
 
 // bsRoom: at least n more bytes fit into the innermost container.
 func bsRoom(b *bitstream, n uint64) bool {
@@ -362,20 +442,23 @@ func specVarUintStop(data []byte, p int, n uint64) bool {
 	return ok
 }
 
-// specVarUintEnd: the length of the VarUInt that starts at the cursor of s: the number
-// of bytes up to and including the first one that carries the stop bit, looking at no
-// more than 10 bytes and never past the end of the data; 0 if there is none.
-func specVarUintEnd(s *vcStream) uint64 {
+// specVarUintEndAt: the length of the VarUInt that starts at data[p]: the number of bytes
+// up to and including the first one that carries the stop bit, looking at no more than 10
+// bytes and never past the end of the data; 0 if there is none.
+func specVarUintEndAt(data []byte, p int) uint64 {
 	for i := 0; i < 10; i++ {
-		if s.cur+i >= len(s.data) {
+		if p+i >= len(data) {
 			return 0
 		}
-		if s.data[s.cur+i]&0x80 != 0 {
+		if data[p+i]&0x80 != 0 {
 			return uint64(i + 1)
 		}
 	}
 	return 0
 }
+
+// specVarUintEnd: specVarUintEndAt at the cursor of s.
+func specVarUintEnd(s *vcStream) uint64 { return specVarUintEndAt(s.data, s.cur) }
 
 // specVarUintValue: big-endian fold of the low seven bits of the n bytes at data[p:]
 // (modulo 2^64, as a 10-byte VarUInt can carry 70 bits).
@@ -387,6 +470,76 @@ func specVarUintValue(data []byte, p int, n uint64) uint64 {
 		}
 	}
 	return v
+}
+
+// specVarIntSign: +1 or -1 by the sign bit (0x40) of the first byte of a VarInt.
+func specVarIntSign(data []byte, p int) int64 {
+	if data[p]&0x40 != 0 {
+		return -1
+	}
+	return 1
+}
+
+// specVarIntValue: the value of the n-byte VarInt at data[p:]: six magnitude bits in the
+// first byte, seven in every further one, big-endian, negated when the sign bit is set
+// (modulo 2^64, as a 10-byte VarInt can carry 69 magnitude bits).
+func specVarIntValue(data []byte, p int, n uint64) int64 {
+	v := int64(data[p] & 0x3F)
+	for i := uint64(1); i < 10; i++ {
+		if i < n {
+			v = v<<7 | int64(data[p+int(i)]&0x7F)
+		}
+	}
+	if data[p]&0x40 != 0 {
+		return -v
+	}
+	return v
+}
+
+// ---------------------------------------------------------------------------
+// Type descriptors (Ion binary spec, "Typed Value Formats"). t is the descriptor octet,
+// top says whether it stands at the top level.
+
+// specTagIllegal: descriptors no value may start with: reserved type 15, annotation
+// with L=15, a version marker (0xE0) inside a container, bool with L other than 0, 1, 15.
+func specTagIllegal(t byte, top bool) bool {
+	hi, lo := t>>4, t&0x0F
+	return hi == 15 || (hi == 14 && lo == 15) || (hi == 14 && lo == 0 && !top) || (hi == 1 && lo > 1 && lo != 15)
+}
+
+// specTagCode: the kind of value a legal descriptor starts.
+func specTagCode(t byte) bitcode {
+	hi, lo := t>>4, t&0x0F
+	if hi == 1 && lo == 1 {
+		return bitcodeTrue
+	}
+	if hi == 14 && lo == 0 {
+		return bitcodeBVM
+	}
+	return specBitcode(int(hi))
+}
+
+// specTagNull: L=15 is the typed null of the type (null.null for type 0).
+func specTagNull(t byte) bool { return t&0x0F == 15 }
+
+// specTagVarLen: the length follows as a VarUInt: L=14, and the sorted struct 0xD1.
+func specTagVarLen(t byte) bool {
+	hi, lo := t>>4, t&0x0F
+	return (lo == 14 && hi != 1) || (hi == 13 && lo == 1)
+}
+
+// specTagInlineLen: the representation length of a descriptor that carries it inline:
+// nothing for booleans (L is the value) and nulls, three more octets for a version
+// marker, L otherwise.
+func specTagInlineLen(t byte) uint64 {
+	hi, lo := t>>4, t&0x0F
+	switch {
+	case hi == 14 && lo == 0:
+		return 3
+	case hi == 1 || lo == 15:
+		return 0
+	}
+	return uint64(lo)
 }
 
 // specBitcode is the type code of a tag's high nibble (Ion binary spec, "Typed Value
